@@ -4,10 +4,12 @@ logging.getLogger('asyncio').setLevel(logging.CRITICAL)      # cancelled gather 
 from .. import proto
 from ..proto import enc
 from ..engine import Finding
+from . import _c19x as X
 
 ID = 'C19'
 TITLE = 'container lifting maps leaf-wise, preserves shape, and is schedule independent'
-LEAN_FILES = ['Basic', 'Lift', 'Zip', 'Waiter', 'LiftDriver', 'WaiterDriver', 'LiftLemmas', 'ZipLemmas', 'WaiterLemmas', 'ResDec', 'C19']
+LEAN_FILES = ['Basic', 'Lift', 'Zip', 'Waiter', 'LiftDriver', 'WaiterDriver', 'LiftLemmas', 'ZipLemmas', 'WaiterLemmas', 'ResDec', 'C19',
+              'LiftX', 'LiftXDriver', 'Txt', 'LiftXLemmas', 'TxtLemmas', 'WaiterF', 'WaiterFDriver', 'WaiterFLemmas']
 RULE = ('distinct protocol lines on which the implementation returned a value and whose looped argument is a non-empty container '
         '(lift), whose arguments hold at least one sequence (zipper/lens/as_list/as_tuple), or whose structure holds at least one '
         'awaitable (waiter; every completion order is a distinct line)')
@@ -17,9 +19,12 @@ TRUSTED = ['correspondence harness (pv.engine, pv.proto) and generators of pv.pr
 ASSUMPTIONS = ['asyncio.gather returns the results of its arguments positionally once all of them are done (model assumption; the harness '
                'drives real asyncio futures resolved in a chosen order)',
                'CPython: dict insertion order, sorted() on string keys is codepoint order, zip stops at the shortest input',
-               'containers: list, tuple, namedtuple, dict with string keys, and (callx lines, laws 6-7) dicts with int / string / None keys mixed; the model has plain tuples and string keys only - callx lines are run on the implementation through a fixed bijection (every tuple a namedtuple, keys through KEYMAP) and the result, checked for its container types, is mapped back; pandas/numpy branches of loops, dict subclasses other than dict and ndarray/Series companions are not modelled and not generated',
-               'the library leaf functions (str.lower, str.strip, ...) are applied by the harness to the leaf calls the model predicts; '
-               'the model does not contain them']
+               'containers: list, tuple, namedtuple, dict with string keys, and (callx lines, laws 6-7) dicts with int / string / None keys mixed; the model has plain tuples and string keys only - callx lines are run on the implementation through a fixed bijection (every tuple a namedtuple, keys through KEYMAP) and the result, checked for its container types, is mapped back; pandas/numpy branches of loops, dict subclasses and ndarray/Series companions are a MODEL EXTENSION (liftx lines, pv.props._c19x; beyond the property text: disagreements there are divergences)',
+               'model extension: pandas 3 / numpy semantics of df[key], df.loc, .T, .iloc, pd.Series(dict), DataFrame(dict of Series / of scalars), np.array(list), integer lookup on string labels (KeyError); int64 cells, distinct string labels, non-timeseries Series; leaf results opaque objects or columns',
+               'closed text helpers: on ASCII text str.lower / str.upper change exactly A-Z / a-z and str.strip() removes the characters str.isspace accepts (9-13, 28-32)',
+               'failing awaitables: asyncio.gather propagates the first exception raised to the awaiting task at once (waiterf lines drive real futures with set_exception)',
+               'the library leaf functions other than lower / upper / strip (proper, replace, split, f12, as_float) are applied by the harness to the leaf '
+               'calls the model predicts; the model does not contain them']
 EXHAUSTIVE = {'quick': False, 'thorough': False}
 EXTRA = {}
 
@@ -349,6 +354,11 @@ def generate(rng, tier):
         yield c
     for c in gen_waiter(rng, tier):
         yield c
+    # model extension: dict subclasses, pandas / numpy branches, closed text helpers, failing awaitables
+    for c in X.generate(rng, tier):
+        yield c
+    for c in X.gen_waiterf(rng, tier, w_struct, enc_w):
+        yield c
 
 
 # ---------------------------------------------------------------- implementation runner
@@ -445,6 +455,11 @@ def lib_leaf(name):
 def run_line(state, sx):
     import pyg_base
     model, op, args = sx[0], sx[1], sx[2:]
+    if model == 'liftx':
+        return X.run_line(sx)
+    if model == 'waiterf':
+        evs = [(int(e[1].split(':')[1]), (e[2][1] == 'B:1', proto.dec(e[2][2]))) for e in args[1][1:]]
+        return 'ok ' + enc(X.run_waiterf(args[0], evs, dec_w))
     if model == 'waiter':
         evs = [(int(e[1].split(':')[1]), proto.dec(e[2])) for e in args[1][1:]]
         done, res = run_waiter(args[0], evs)
@@ -637,6 +652,12 @@ def lib_expected(line, mr):
 
 
 def compare(case, i, line, ir, mr):
+    if line.startswith('(liftx '):
+        return X.compare(line, ir, mr)
+    if line.startswith('(waiterf '):
+        if proto.same_reply(ir, mr, numeric=False):
+            return None
+        return ('divergence', 'failing awaitables (model extension, the statement speaks of results): implementation %s, model %s' % (ir, mr))
     if line.startswith('(lift lib '):
         exp = lib_expected(line, mr)
         if proto.same_reply(ir, exp, numeric=False):
@@ -658,6 +679,10 @@ def nontrivial(line, reply):
     if not reply.startswith('ok'):
         return False
     sx = proto.parse(line)
+    if sx[0] == 'liftx':
+        return X.nontrivial(line, reply)
+    if sx[0] == 'waiterf':
+        return '(A ' in line
     if sx[0] == 'waiter':
         return '(A ' in line
     if sx[1] in ('call', 'callx'):
